@@ -607,6 +607,7 @@ func (p *RegProcessor) processBdReq(c2sPayload *pb.C2SWrapper) (*pb.Registration
 					if randVal < cumulativeWeight {
 						ipNet = p.minOverrideSubnets[i].CIDR.IPNet
 						//dstPortOverride = p.minOverrideSubnets[i].Port
+						break
 					}
 				}
 
@@ -642,6 +643,7 @@ func (p *RegProcessor) processBdReq(c2sPayload *pb.C2SWrapper) (*pb.Registration
 							ipNet = p.prefixOverrideSubnets[i].CIDR.IPNet
 							dstPortOverride = p.prefixOverrideSubnets[i].Port
 							prefixid = p.prefixOverrideSubnets[i].PrefixId
+							break
 						}
 					}
 
